@@ -295,72 +295,91 @@ func (e *ProjectError) Error() string { return e.Msg }
 // tells whether the value is present at all (a container whose element types
 // do not match decodes as absent).
 func (p *Program) Project(t *Type, w wm.W) (wm.W, error) {
+	out, _, err := p.project(t, w)
+	return out, err
+}
+
+// project additionally reports whether the value came out as a nil container:
+// a list / set / map whose element types differ from the declared ones decodes
+// to nil without error in both generated paths. A nil container counts as
+// "seen" for a required field but not as a set member of a union.
+func (p *Program) project(t *Type, w wm.W) (wm.W, bool, error) {
 	r := p.Root(t)
 	switch r.K {
 	case TList, TSet:
 		out := wm.W{K: w.K, EK: p.WireKind(r.Elem)}
 		if w.EK != out.EK {
-			// element type mismatch: both generated paths yield an empty/nil container without error
-			return out, nil
+			return out, true, nil
 		}
 		for _, e := range w.Elems {
-			pe, err := p.Project(r.Elem, e)
+			pe, _, err := p.project(r.Elem, e)
 			if err != nil {
-				return wm.W{}, err
+				return wm.W{}, false, err
 			}
 			out.Elems = append(out.Elems, pe)
 		}
-		return out, nil
+		return out, false, nil
 	case TMap:
 		out := wm.W{K: wm.KMap, KK: p.WireKind(r.Key), VK: p.WireKind(r.Val)}
 		if w.KK != out.KK || w.VK != out.VK {
-			return out, nil
+			return out, true, nil
 		}
 		for _, pr := range w.Pairs {
-			k, err := p.Project(r.Key, pr.K)
+			k, _, err := p.project(r.Key, pr.K)
 			if err != nil {
-				return wm.W{}, err
+				return wm.W{}, false, err
 			}
-			v, err := p.Project(r.Val, pr.V)
+			v, _, err := p.project(r.Val, pr.V)
 			if err != nil {
-				return wm.W{}, err
+				return wm.W{}, false, err
 			}
 			out.Pairs = append(out.Pairs, wm.Pair{K: k, V: v})
 		}
-		return out, nil
+		return out, false, nil
 	case TRef:
 		d := p.Lookup(*r.Ref)
 		if !d.IsStructLike() {
-			return w, nil // enum: any i32
+			return w, false, nil // enum: any i32
 		}
-		return p.ProjectFields(d.Fields, d.Kind == DUnion, w)
+		arity := ArityAny
+		if d.Kind == DUnion {
+			arity = ArityExactlyOne
+		}
+		out, err := p.ProjectFields(d.Fields, arity, w)
+		return out, false, err
 	}
-	return w, nil
+	return w, false, nil
 }
 
+// Arity constraints on the number of members set.
+const (
+	ArityAny        = 0
+	ArityExactlyOne = 1 // unions, results of non-void functions
+	ArityAtMostOne  = 2 // results of void functions
+)
+
 // ProjectFields is Project for an explicit field list.
-func (p *Program) ProjectFields(fields []*Field, union bool, w wm.W) (wm.W, error) {
+func (p *Program) ProjectFields(fields []*Field, arity int, w wm.W) (wm.W, error) {
 	byID := map[int16]*Field{}
 	for _, f := range fields {
 		byID[int16(f.ID)] = f
 	}
 	stored := map[int16]wm.W{}
-	var order []int16
+	nilContainer := map[int16]bool{}
 	for _, wf := range w.Fields {
 		f, ok := byID[wf.ID]
 		if !ok || p.WireKind(f.Type) != wf.V.K {
 			continue // unknown id, or known id with another wire type: skipped
 		}
-		v, err := p.Project(f.Type, wf.V)
+		v, isNil, err := p.project(f.Type, wf.V)
 		if err != nil {
 			return wm.W{}, err
 		}
-		if _, dup := stored[wf.ID]; !dup {
-			order = append(order, wf.ID)
-		}
 		stored[wf.ID] = v // a repeated field: the last occurrence wins
+		nilContainer[wf.ID] = isNil
 	}
 	out := wm.Struct()
+	members := 0
 	for _, f := range fields {
 		v, ok := stored[int16(f.ID)]
 		if !ok {
@@ -374,12 +393,22 @@ func (p *Program) ProjectFields(fields []*Field, union bool, w wm.W) (wm.W, erro
 			}
 			continue
 		}
+		if nilContainer[int16(f.ID)] {
+			// decoded to a nil container: nothing is stored; an optional field with a
+			// default keeps its default
+			if f.Default != nil && !f.Required() {
+				if dv, err := p.Eval(f.Default, f.Type); err == nil {
+					out.Fields = append(out.Fields, wm.Field{ID: int16(f.ID), V: dv})
+				}
+			}
+			continue
+		}
+		members++
 		out.Fields = append(out.Fields, wm.Field{ID: int16(f.ID), V: v})
 	}
-	if union && len(out.Fields) != 1 {
-		return wm.W{}, &ProjectError{fmt.Sprintf("union has %d members set", len(out.Fields))}
+	if (arity == ArityExactlyOne && members != 1) || (arity == ArityAtMostOne && members > 1) {
+		return wm.W{}, &ProjectError{fmt.Sprintf("union has %d members set", members)}
 	}
-	_ = order
 	return out, nil
 }
 
